@@ -41,6 +41,7 @@ class Cond:
     consts: dict[str, Any] = field(default_factory=dict)
     consts_thorough: dict[str, Any] | None = None
     twin: bool = False  # reachability twin: must be REFUTED
+    grid_only: bool = False  # translator/stub validation on a concrete corpus, native only
     grid: Callable[[], Iterable[tuple]] | None = None
     bounds: str = ""
     stubs: tuple[str, ...] = ()
